@@ -23,20 +23,23 @@ structure StrictSt (n : Nat) where
   cands : List (Fin n)
   changed : Bool
 
+/-- the body of the loop for one candidate `v` -/
+def strictStep (N : Net n) (st : StrictSt n) (v : Fin n) : StrictSt n :=
+  match constOnB (N.f v) st.restriction with
+  | none => st
+  | some b =>
+    match st.restriction[v] with
+    | some g =>
+      if g != b then { st with cands := st.cands.filter (· != v) }
+      else { restriction := st.restriction.set v (some b), result := st.result.set v (some b),
+             cands := st.cands.filter (· != v), changed := true }
+    | none =>
+      { restriction := st.restriction.set v (some b), result := st.result.set v (some b),
+        cands := st.cands.filter (· != v), changed := true }
+
 /-- one `for var in copy(candidates)` pass -/
 def strictPass (N : Net n) (st : StrictSt n) : StrictSt n :=
-  st.cands.foldl (fun st v =>
-    match constOnB (N.f v) st.restriction with
-    | none => st
-    | some b =>
-      match st.restriction[v] with
-      | some g =>
-        if g != b then { st with cands := st.cands.filter (· != v) }
-        else { restriction := st.restriction.set v (some b), result := st.result.set v (some b),
-               cands := st.cands.filter (· != v), changed := true }
-      | none =>
-        { restriction := st.restriction.set v (some b), result := st.result.set v (some b),
-          cands := st.cands.filter (· != v), changed := true }) { st with changed := false }
+  st.cands.foldl (strictStep N) { st with changed := false }
 
 def strictLoop (N : Net n) : Nat → StrictSt n → StrictSt n
   | 0, st => st
